@@ -790,7 +790,7 @@ def operator_to_BlockSeries(
                 eval=lambda *index: operator[index[2:]],
                 shape=(1, 1),
                 n_infinite=operator.n_infinite,
-                dimension_names=symbols,
+                dimension_names=operator.dimension_names,
                 name=name or operator.name,
             )
 
@@ -862,7 +862,7 @@ def operator_to_BlockSeries(
         eval=op_eval,
         shape=(n_blocks, n_blocks),
         n_infinite=operator.n_infinite,
-        dimension_names=symbols,
+        dimension_names=operator.dimension_names,
         name=name or operator.name,
     )
 
@@ -1398,7 +1398,8 @@ def _sympy_to_BlockSeries(
 
     """
     if not symbols:
-        symbols = tuple(list(operator.free_symbols))  # All symbols are perturbative
+        # All symbols are perturbative; sort them to have a reproducible order.
+        symbols = tuple(sorted(operator.free_symbols, key=lambda x: x.name))
     if any(n not in operator.free_symbols for n in symbols):
         raise ValueError("Not all perturbative parameters are in `hamiltonian`.")
 
